@@ -128,6 +128,9 @@ fn verif_pure_file_hash()
     let mut sizes : Vec<usize> = (0..=40).collect();
     for base in [256usize, 512, 768, 1024].iter() { for d in 0..5 { sizes.push(base - 2 + d); } }
     sizes.push(1100); sizes.push(5000);
+    /*  'random larger ones': around other plausible buffer sizes */
+    for base in [4096usize, 8192, 65536, 131072].iter() { for d in 0..3 { sizes.push(base - 1 + d); } }
+    sizes.push(70_052); sizes.push(300_007);
     for (k, size) in sizes.iter().enumerate()
     {
         t.case();
@@ -141,6 +144,14 @@ fn verif_pure_file_hash()
         let path2 = format!("other/dir{}", k); let _ = system.create_dir("other");
         { let mut f = system.create_file(&path2).unwrap(); f.write_all(&content).unwrap(); }
         if TicketFactory::from_file(&system, &path2).unwrap().result() != got { t.wrong(&format!("size {}", size), "hash depends on the path"); }
+        /*  the same bytes with another LAST byte hash differently (SHA-256 collisions aside) */
+        if *size > 0
+        {
+            let mut other = content.clone(); let n = other.len(); other[n - 1] ^= 0x55;
+            let path3 = format!("g{}", k);
+            { let mut f = system.create_file(&path3).unwrap(); f.write_all(&other).unwrap(); }
+            if TicketFactory::from_file(&system, &path3).unwrap().result() == got { t.wrong(&format!("size {}", size), "two files that differ in their last byte get the same hash"); }
+        }
     }
     t.done();
 }
@@ -482,5 +493,18 @@ fn verif_pure_compare_insert()
             if h.get_file_state_vec(&tk(9)) != Some(&fa) { t.wrong(&format!("{} vs {}", la, lb), "the earlier record was not kept"); }
         }
     } }
+    /*  a LONG history: a record, once made, stays -- however many other source states are recorded after it */
+    {
+        let big = |i: usize| TicketFactory::from_str(&format!("source state {}", i)).result();
+        let out = |i: usize| FileStateVec::from_ticket_vec(vec![TicketFactory::from_str(&format!("output {}", i)).result()]);
+        let mut h = RuleHistory::new();
+        for i in 0..300usize { t.case(); if h.insert(big(i), out(i)).is_err() { t.wrong(&format!("record {}", i), "a first record is refused"); } }
+        for i in 0..300usize
+        {
+            t.case();
+            if h.get_file_state_vec(&big(i)) != Some(&out(i)) { t.wrong(&format!("record {} of 300", i), "an earlier record is gone or changed"); }
+            match h.insert(big(i), out(i + 1000)) { Err(RuleHistoryInsertError::Contradiction(v)) if v == vec![0] => {}, _ => t.wrong(&format!("record {} of 300", i), "another output for recorded sources is not reported as a contradiction") }
+        }
+    }
     t.done();
 }
